@@ -99,6 +99,13 @@ Proof.
   - rewrite Hc in H. inversion H; reflexivity.
 Qed.
 
+Lemma rs_except_pass {A} (m fb : res A) classes :
+  raises_safe m -> raises_safe fb -> raises_safe (except_pass m classes fb).
+Proof.
+  intros Hm Hf e H. unfold except_pass in H. destruct m as [a|e0]; [discriminate|].
+  destruct (exc_in e0 classes); [exact (Hf e H)|]. inversion H; subst. apply Hm; reflexivity.
+Qed.
+
 Lemma lib_safe e : lib_exc e = true -> safe e = true.
 Proof. destruct e; cbn; congruence. Qed.
 
@@ -169,21 +176,18 @@ Proof.
     + right. subst. reflexivity.
 Qed.
 
+Lemma rs_payload_id_text v : raises_safe (payload_id_text v).
+Proof.
+  unfold payload_id_text.
+  apply rs_bind; [destruct v; try apply rs_ok; apply rs_raise; reflexivity|intros ty].
+  apply rs_bind; [apply rs_py_encode|intros; apply rs_ok].
+Qed.
+
 Lemma rs_get_payload_id v : raises_safe (get_payload_id E v).
 Proof.
-  unfold get_payload_id, except_pass. intros e H.
-  destruct (o_ip_address E v) as [a|e0] eqn:Ha; cbn in H; [discriminate|].
-  destruct (exc_in e0 payload_id_caught).
-  - revert e H. change (raises_safe
-      (do ty <- match v with
-                | PStr s => Ok (if contains_char "@" s then ID_RFC822_ADDR else ID_FQDN)
-                | PList _ | PDict _ => Ok ID_FQDN
-                | PNone | PBool _ | PInt _ => Raise TypeError
-                end;
-       do data <- py_encode v; Ok {| id_type := ty; id_data := data |})).
-    apply rs_bind; [destruct v; try apply rs_ok; apply rs_raise; reflexivity|intros ty].
-    apply rs_bind; [apply rs_py_encode|intros; apply rs_ok].
-  - inversion H; subst. apply lib_safe. exact (ok_ip_address E HE _ _ Ha).
+  unfold get_payload_id. apply rs_except_pass; [|apply rs_payload_id_text].
+  intros e H. destruct (o_ip_address E v) as [a|e0] eqn:Ha; cbn in H; [discriminate|].
+  inversion H; subst. apply lib_safe. exact (ok_ip_address E HE _ _ Ha).
 Qed.
 
 Lemma rs_load_opt_key d k loader :
@@ -272,3 +276,311 @@ Proof.
 Qed.
 
 End WithEnv.
+
+(** * Faithful loading *)
+
+Lemma bind_ok {A B} (m : res A) (f : A -> res B) b :
+  bind m f = Ok b -> exists a, m = Ok a /\ f a = Ok b.
+Proof. destruct m; cbn; [eauto|discriminate]. Qed.
+
+Ltac inv_bind H :=
+  let a := fresh "a" in let Ha := fresh "Ha" in
+  apply bind_ok in H; destruct H as (a & Ha & H); cbv beta zeta in H.
+
+Lemma except_raise_ok {A} (m : res A) classes to a : except_raise m classes to = Ok a -> m = Ok a.
+Proof. destruct m; cbn; [auto|]. destruct (exc_in e classes); discriminate. Qed.
+
+Lemma py_get_field d k o : py_get d k = Ok o -> o = field d k.
+Proof. destruct d; cbn; intros H; inversion H; reflexivity. Qed.
+
+Lemma py_getitem_field d k v : py_getitem d k = Ok v -> field d k = Some v.
+Proof.
+  destruct d; cbn; intros H; try discriminate. destruct (assoc_str k l); inversion H; reflexivity.
+Qed.
+
+Lemma with_default_field d k x : with_default (field d k) x = field_or d k x.
+Proof. reflexivity. Qed.
+
+Lemma field_or_some d k v x : field d k = Some v -> field_or d k x = v.
+Proof. unfold field_or. intros ->. reflexivity. Qed.
+
+Lemma load_from_dict_ok {A} key (t : list (string * A)) a :
+  load_from_dict key t = Ok a -> exists s, key = PStr s /\ table_get s t = Some a.
+Proof.
+  intros H. apply except_raise_ok in H. destruct key; cbn in H; try discriminate.
+  exists s. split; [reflexivity|]. destruct (table_get s t); inversion H; reflexivity.
+Qed.
+
+Lemma load_name_ok key (t : list (string * Z)) z : load_from_dict key t = Ok z -> z = read_name t key.
+Proof. intros H. apply load_from_dict_ok in H as (s & -> & Hs). cbn. rewrite Hs. reflexivity. Qed.
+
+Lemma load_alg_ok t x tr : load_alg t x = Ok tr -> read_alg t x = [tr].
+Proof.
+  unfold load_alg, read_alg. destruct (py_str_atom x).
+  - intros H. apply load_from_dict_ok in H as (s' & Hs & Ht). inversion Hs; subst. rewrite Ht. reflexivity.
+  - intros H. apply except_raise_ok in H. discriminate.
+Qed.
+
+Lemma load_alg_list_ok t l : forall trs, load_alg_list t l = Ok trs -> trs = flat_map (read_alg t) l.
+Proof.
+  induction l as [|x r IH]; cbn [load_alg_list flat_map]; intros trs H.
+  - inversion H; reflexivity.
+  - inv_bind H. inv_bind H. inversion H; subst. rewrite (load_alg_ok _ _ _ Ha). rewrite <- (IH _ Ha0). reflexivity.
+Qed.
+
+Lemma load_crypto_algs_ok v t trs : load_crypto_algs v t = Ok trs -> trs = read_algs t v.
+Proof. destruct v; cbn; try discriminate. apply load_alg_list_ok. Qed.
+
+Lemma make_proposal_ok n p trs pr :
+  make_proposal n p trs = Ok pr -> pr = {| p_num := n; p_protocol := p; p_transforms := trs |}.
+Proof. destruct trs; cbn; intros H; inversion H; reflexivity. Qed.
+
+Lemma cleared_encr p l : cleared K_encr p l = if Z.eqb p PROTO_AH then [] else l.
+Proof.
+  unfold cleared. change (Z.eqb p ah_protocol) with (Z.eqb p PROTO_AH). destruct (Z.eqb p PROTO_AH); reflexivity.
+Qed.
+Lemma cleared_integ p l : cleared K_integ p l = l.
+Proof. unfold cleared. destruct (Z.eqb p ah_protocol); reflexivity. Qed.
+Lemma cleared_dh p l : cleared K_dh p l = l.
+Proof. unfold cleared. destruct (Z.eqb p ah_protocol); reflexivity. Qed.
+
+Lemma child_transforms encr integ dh :
+  flat_map (pick encr integ [] dh) child_transform_order = (encr ++ integ ++ dh ++ [NO_ESN])%list.
+Proof. cbn. reflexivity. Qed.
+
+Lemma ike_transforms encr integ prf dh :
+  flat_map (pick encr integ prf dh) ike_transform_order = (encr ++ integ ++ prf ++ dh)%list.
+Proof. cbn. rewrite app_nil_r. reflexivity. Qed.
+
+Lemma from_network_spec n port proto : from_network n port proto = read_selector n port proto.
+Proof. reflexivity. Qed.
+
+Section Faithful.
+Variable E : env.
+
+Lemma get_int_ok d k dflt z : get_int E d k dflt = Ok z -> z = read_int E (field_or d k dflt).
+Proof.
+  unfold get_int. intros H. inv_bind H. apply py_get_field in Ha. subst a.
+  rewrite with_default_field in H. unfold read_int. rewrite H. reflexivity.
+Qed.
+
+Lemma py_int_ok v z : py_int (o_int_nonascii E) v = Ok z -> z = read_int E v.
+Proof. intros H. unfold read_int. rewrite H. reflexivity. Qed.
+
+Lemma load_ip_address_ok v a : load_ip_address E v = Ok a -> a = read_endpoint E v.
+Proof.
+  unfold load_ip_address, read_endpoint. intros H. apply except_raise_ok in H.
+  inv_bind H. inv_bind H. rewrite Ha, Ha0. inversion H; reflexivity.
+Qed.
+
+Lemma load_ip_network_ok v n : load_ip_network E v = Ok n -> o_ip_network E v = Ok n.
+Proof. apply except_raise_ok. Qed.
+
+Lemma get_payload_id_ok v i : get_payload_id E v = Ok i -> i = read_identity E v.
+Proof.
+  unfold get_payload_id, read_identity, except_pass.
+  destruct (o_ip_address E v) as [a|e0]; cbn [bind].
+  - intros H. inversion H. reflexivity.
+  - destruct (exc_in e0 payload_id_caught); [|discriminate].
+    unfold payload_id_text. intros H. inv_bind H. inv_bind H.
+    destruct v; cbn in Ha0; try discriminate. inversion Ha0; subst. inversion Ha; subst.
+    inversion H. reflexivity.
+Qed.
+
+Lemma load_opt_key_ok d k loader o : load_opt_key d k loader = Ok o -> o = read_key loader (field d k).
+Proof.
+  unfold load_opt_key. intros H. inv_bind H. apply py_get_field in Ha. subst a.
+  destruct (field d k) as [v|]; [|inversion H; reflexivity].
+  inv_bind H. inv_bind H. destruct v; cbn in Ha; try discriminate. inversion Ha; subst.
+  cbn. rewrite Ha0. inversion H; reflexivity.
+Qed.
+
+Lemma load_auth_conf_ok d a : load_auth_conf E d = Ok a -> a = read_auth E d.
+Proof.
+  unfold load_auth_conf, read_auth. intros H.
+  inv_bind H. apply py_get_field in Ha. subst a0. rewrite with_default_field in H.
+  inv_bind H. inv_bind Ha. apply py_get_field in Ha0. subst a1.
+  inv_bind H. apply get_payload_id_ok in Ha0.
+  inv_bind H. apply load_opt_key_ok in Ha1.
+  inv_bind H. apply load_opt_key_ok in Ha2.
+  inversion H; subst. f_equal.
+  destruct (field d "psk") as [v|]; [|inversion Ha; reflexivity].
+  inv_bind Ha. destruct v; cbn in Ha0; try discriminate. inversion Ha0; subst. inversion Ha; reflexivity.
+Qed.
+
+Lemma subnet_ok o dflt n :
+  match o with Some v => load_ip_network E v | None => Ok (network_of_address dflt) end = Ok n ->
+  n = read_subnet E o dflt.
+Proof.
+  destruct o as [v|]; cbn.
+  - intros H. apply load_ip_network_ok in H. rewrite H. reflexivity.
+  - intros H. inversion H. reflexivity.
+Qed.
+
+Lemma load_ipsec_conf_ok my peer k d c :
+  load_ipsec_conf E my peer k d = Ok c -> c = read_child E my peer k d.
+Proof.
+  unfold load_ipsec_conf. intros H.
+  repeat match type of H with
+         | bind (py_get _ _) _ = Ok _ =>
+             let a := fresh "o" in let Ha := fresh "Ho" in
+             apply bind_ok in H; destruct H as (a & Ha & H); cbv beta zeta in H;
+             apply py_get_field in Ha; subst a; rewrite ?with_default_field in H
+         | bind (load_from_dict _ _) _ = Ok _ =>
+             let a := fresh "z" in let Ha := fresh "Hz" in
+             apply bind_ok in H; destruct H as (a & Ha & H); cbv beta zeta in H;
+             apply load_name_ok in Ha; subst a
+         | bind (load_crypto_algs _ _) _ = Ok _ =>
+             let a := fresh "l" in let Ha := fresh "Hl" in
+             apply bind_ok in H; destruct H as (a & Ha & H); cbv beta zeta in H;
+             apply load_crypto_algs_ok in Ha; subst a
+         | bind (get_int _ _ _ _) _ = Ok _ =>
+             let a := fresh "z" in let Ha := fresh "Hz" in
+             apply bind_ok in H; destruct H as (a & Ha & H); cbv beta zeta in H;
+             apply get_int_ok in Ha; subst a
+         | bind (match _ with Some v => load_ip_network _ v | None => _ end) _ = Ok _ =>
+             let a := fresh "n" in let Ha := fresh "Hn" in
+             apply bind_ok in H; destruct H as (a & Ha & H); cbv beta zeta in H;
+             apply subnet_ok in Ha; subst a
+         | bind (make_proposal _ _ _) _ = Ok _ =>
+             let a := fresh "p" in let Ha := fresh "Hp" in
+             apply bind_ok in H; destruct H as (a & Ha & H); cbv beta zeta in H;
+             apply make_proposal_ok in Ha; subst a
+         end.
+  (* the index: given, or the k-th random draw *)
+  apply bind_ok in H. destruct H as (idx & Hidx & H). cbv beta zeta in H.
+  assert (Hi : idx = match field d "index" with Some v => read_int E v | None => o_randint E k end).
+  { destruct (field d "index"); [apply py_int_ok; exact Hidx|inversion Hidx; reflexivity]. }
+  subst idx.
+  repeat match type of H with
+         | bind (py_get _ _) _ = Ok _ =>
+             let a := fresh "o" in let Ha := fresh "Ho" in
+             apply bind_ok in H; destruct H as (a & Ha & H); cbv beta zeta in H;
+             apply py_get_field in Ha; subst a; rewrite ?with_default_field in H
+         | bind (load_from_dict _ _) _ = Ok _ =>
+             let a := fresh "z" in let Ha := fresh "Hz" in
+             apply bind_ok in H; destruct H as (a & Ha & H); cbv beta zeta in H;
+             apply load_name_ok in Ha; subst a
+         | bind (get_int _ _ _ _) _ = Ok _ =>
+             let a := fresh "z" in let Ha := fresh "Hz" in
+             apply bind_ok in H; destruct H as (a & Ha & H); cbv beta zeta in H;
+             apply get_int_ok in Ha; subst a
+         | bind (make_proposal _ _ _) _ = Ok _ =>
+             let a := fresh "p" in let Ha := fresh "Hp" in
+             apply bind_ok in H; destruct H as (a & Ha & H); cbv beta zeta in H;
+             apply make_proposal_ok in Ha; subst a
+         end.
+  inversion H; clear H. unfold read_child.
+  rewrite ?child_transforms, cleared_encr, cleared_integ, cleared_dh.
+  reflexivity.
+Qed.
+
+Lemma load_protect_ok my peer l : forall k cs,
+  load_protect E my peer k l = Ok cs -> cs = read_protect E my peer k l.
+Proof.
+  induction l as [|d r IH]; cbn [load_protect read_protect]; intros k cs H.
+  - inversion H; reflexivity.
+  - inv_bind H. inv_bind H. inversion H; subst.
+    rewrite (load_ipsec_conf_ok _ _ _ _ _ Ha), (IH _ _ Ha0). reflexivity.
+Qed.
+
+Lemma load_ike_conf_ok addrs k name d ic :
+  load_ike_conf E addrs k name d = Ok ic ->
+  ic = read_connection E k name d /\ existsb (addr_eqb (i_my_addr ic)) addrs = true.
+Proof.
+  unfold load_ike_conf. intros H.
+  repeat match type of H with
+         | bind (py_get _ _) _ = Ok _ =>
+             let a := fresh "o" in let Ha := fresh "Ho" in
+             apply bind_ok in H; destruct H as (a & Ha & H); cbv beta zeta in H;
+             apply py_get_field in Ha; subst a; rewrite ?with_default_field in H
+         | bind (load_crypto_algs _ _) _ = Ok _ =>
+             let a := fresh "l" in let Ha := fresh "Hl" in
+             apply bind_ok in H; destruct H as (a & Ha & H); cbv beta zeta in H;
+             apply load_crypto_algs_ok in Ha; subst a
+         end.
+  inv_bind H. apply py_getitem_field in Ha. inv_bind H. apply load_ip_address_ok in Ha0.
+  rename Ha into Hmy. rename Ha0 into Hmy'.
+  inv_bind H. apply py_getitem_field in Ha. inv_bind H. apply load_ip_address_ok in Ha0.
+  rename Ha into Hpeer. rename Ha0 into Hpeer'.
+  inv_bind H. apply py_getitem_field in Ha. inv_bind H. apply load_auth_conf_ok in Ha0.
+  rename Ha into Hma. rename Ha0 into Hma'.
+  inv_bind H. apply py_getitem_field in Ha. inv_bind H. apply load_auth_conf_ok in Ha0.
+  rename Ha into Hpa. rename Ha0 into Hpa'.
+  inv_bind H. apply get_int_ok in Ha. rename Ha into Hlt.
+  inv_bind H. apply get_int_ok in Ha. rename Ha into Hdpd.
+  inv_bind H. apply make_proposal_ok in Ha. rename Ha into Hprop.
+  destruct (existsb (addr_eqb a0) addrs) eqn:Hmem; cbn [negb] in H; [|discriminate].
+  inv_bind H. apply py_getitem_field in Ha. rename Ha into Hprot.
+  inv_bind H. rename Ha into Hiter.
+  inv_bind H. apply load_protect_ok in Ha.
+  inversion H; clear H. cbn [i_my_addr]. split; [|exact Hmem].
+  unfold read_connection.
+  rewrite (field_or_some _ _ _ PNone Hmy), (field_or_some _ _ _ PNone Hpeer),
+    (field_or_some _ _ _ PNone Hma), (field_or_some _ _ _ PNone Hpa), Hprot.
+  unfold entries_of. rewrite Hiter. subst. rewrite ike_transforms. reflexivity.
+Qed.
+
+Lemma init_except_ok {A} (m : res A) a : init_except m = Ok a -> m = Ok a.
+Proof. destruct m as [x|e]; [auto|]. destruct e; cbn; discriminate. Qed.
+
+Lemma load_connections_ok addrs items : forall k acc c,
+  load_connections E addrs k acc items = Ok c -> c = read_connections E k acc items.
+Proof.
+  induction items as [|[name d] r IH]; cbn [load_connections read_connections]; intros k acc c H.
+  - inversion H; reflexivity.
+  - inv_bind H. apply init_except_ok in Ha. apply load_ike_conf_ok in Ha as [-> _].
+    apply IH in H. exact H.
+Qed.
+
+Lemma load_faithful addrs d c : load E addrs d = Ok c -> c = spec E d.
+Proof. destruct d; cbn [load spec]; try discriminate. apply load_connections_ok. Qed.
+
+(** * my_addr is a listening address, and is the first component of the key *)
+
+Definition listened (addrs : list address) (c : config) : Prop :=
+  Forall (fun kv => existsb (addr_eqb (i_my_addr (snd kv))) addrs = true /\
+                    fst kv = (i_my_addr (snd kv), i_peer_addr (snd kv))) c.
+
+Lemma key_eqb_eq k k' : key_eqb k k' = true -> k = k'.
+Proof.
+  destruct k as [[v1 a1] [v2 a2]], k' as [[w1 b1] [w2 b2]]. unfold key_eqb, addr_eqb. cbn [fst snd].
+  intros H. apply andb_prop in H as [H1 H2]. apply andb_prop in H1 as [H11 H12]. apply andb_prop in H2 as [H21 H22].
+  apply Z.eqb_eq in H11, H12, H21, H22. subst. reflexivity.
+Qed.
+
+Lemma dict_set_listened addrs acc ic :
+  listened addrs acc -> existsb (addr_eqb (i_my_addr ic)) addrs = true ->
+  listened addrs (dict_set acc (i_my_addr ic, i_peer_addr ic) ic).
+Proof.
+  unfold listened. induction acc as [|[k' v'] r IH]; cbn [dict_set]; intros Hacc Hic.
+  - constructor; [split; [exact Hic|reflexivity]|constructor].
+  - inversion Hacc as [|? ? [H1 H2] Hr]; subst. cbn [fst snd] in *.
+    destruct (key_eqb (i_my_addr ic, i_peer_addr ic) k') eqn:Hk.
+    + apply key_eqb_eq in Hk. constructor; [|exact Hr]. cbn [fst snd]. split; [exact Hic|]. symmetry; exact Hk.
+    + constructor; [split; assumption|]. apply IH; assumption.
+Qed.
+
+Lemma load_connections_listened addrs items : forall k acc c,
+  listened addrs acc -> load_connections E addrs k acc items = Ok c -> listened addrs c.
+Proof.
+  induction items as [|[name d] r IH]; cbn [load_connections]; intros k acc c Hacc H.
+  - inversion H; subst; exact Hacc.
+  - inv_bind H. apply init_except_ok in Ha. apply load_ike_conf_ok in Ha as [_ Hmem].
+    eapply IH; [|exact H]. apply dict_set_listened; assumption.
+Qed.
+
+Lemma load_listened addrs d c : load E addrs d = Ok c -> listened addrs c.
+Proof.
+  destruct d; cbn [load]; try discriminate. apply load_connections_listened. constructor.
+Qed.
+
+End Faithful.
+
+(** membership by addr_eqb is membership *)
+Lemma addr_mem_In a addrs : existsb (addr_eqb a) addrs = true -> In a addrs.
+Proof.
+  intros H. apply existsb_exists in H as (x & Hin & Heq).
+  unfold addr_eqb in Heq. apply andb_prop in Heq as [H1 H2]. apply Z.eqb_eq in H1, H2.
+  destruct a, x; cbn in *; subst. exact Hin.
+Qed.
